@@ -68,7 +68,9 @@ void harness_chunked(void)
 		VP_WITNESS("chunked stream rejected");
 	} else {
 		int same = 1;
-		VP_ASSERT(L.status != REF_C_REJECT, "C23: stream accepted as chunked body that is not one (RFC 9112 7.1)");
+		/* (octets that cannot start the CRLF after chunk-data are an error; a line-based recipient sees it once
+		 * the line is complete and asks for more data until then) */
+		VP_ASSERT(L.status != REF_C_REJECT || (L.reject_at_eol && st == MORE_DATA_EXPECTED), "C23: stream accepted as chunked body that is not one (RFC 9112 7.1)");
 		VP_ASSERT((st == ALL_DATA_READ) == (L.status == REF_C_DONE), "C23: last-chunk recognised exactly where the chunked body ends");
 		if (L.status != REF_C_REJECT) {
 			VP_ASSERT(evbuffer_get_length(body) == L.body_len, "C23: body length delivered != octets of the complete chunks");
